@@ -498,7 +498,8 @@ var docLayouts = []string{"file:///v/r/root.json", "file:///v/r/other.json", "fi
 // URL is a textual prefix / extension of another's: code that identifies documents by path alone or by string
 // prefix confuses them.
 var twinLayouts = []string{"file:///v/r/root.json", "http://h.example/v/r/root.json", "https://h.example/v/r/root.json", "http://mirror.example/v/r/root.json",
-	"file:///v/r/root.jsonx", "file:///v/r/root.json.d/s.json", "http://h.example/v/r/root.json2"}
+	"file:///v/r/root.jsonx", "file:///v/r/root.json.d/s.json", "http://h.example/v/r/root.json2",
+	"file:///v/r-common/items.json", "file:///v/r2/o.json", "file:///v/rr.json"}
 
 var nastyDefNames = []string{"a/b", "a~b", "a%20b", "a b", "é", "{x}", "a#b", "a?b", "x.y", "a%b"}
 
